@@ -350,4 +350,4 @@ def replay(ctx, c):
 
 def run(ctx):
     q = ctx.tier == "quick"
-    hyp_run(ctx, "files", case(), lambda c: check(ctx, c), 450 if q else 9000)
+    hyp_run(ctx, "files", case(), lambda c: check(ctx, c), 900 if q else 9000)
